@@ -88,13 +88,14 @@ Qed.
 Lemma eval_ext : forall G e r1 r2,
   (forall v, In v (expr_vars e) -> lookup v r1 = lookup v r2) -> eval G e r1 = eval G e r2.
 Proof.
-  intros G e r1 r2; induction e as [v|x|x p|o a IHa b IHb|o a IHa|x l]; cbn [eval expr_vars]; intros H.
+  intros G e r1 r2; induction e as [v|x|x p|o a IHa b IHb|o a IHa|x l|tg vs]; cbn [eval expr_vars]; intros H.
   - reflexivity.
   - rewrite (H x) by (left; reflexivity). reflexivity.
   - rewrite (H x) by (left; reflexivity). reflexivity.
   - rewrite IHa, IHb; [reflexivity| |]; intros v Hv; apply H, in_or_app; tauto.
   - rewrite IHa; auto.
   - rewrite (H x) by (left; reflexivity). reflexivity.
+  - reflexivity.
 Qed.
 
 Lemma passes_ext : forall G e r1 r2,
